@@ -50,6 +50,11 @@ def check(rep, ctx):
     R_TM = rep.rule("C02-time", "durations and timestamps are converted to the millisecond integer on the wire exactly (no inexact float "
                     "truncated, no float on a 64-bit duration, measured from the UTC epoch)", floor=380,
                     necessary_because="int(4.06 * 1000) is 4059: the big-endian int64 on the wire is 1 ms too small")
+    R_DO = rep.rule("C02-decl-order", "the fields of every class are declared in the order of the pinned Kafka 3.9.0 definitions (the frozen "
+                    "reference): the writer follows declaration order, so a swapped pair is written in an order no Kafka peer expects", floor=1600,
+                    necessary_because="reader and writer of kio share the declaration, so a swapped pair of fields round-trips and no test pins the bytes of most APIs")
+    from ..baseline import load_reference
+    ref_mods = load_reference()["schema"]["modules"]
     R_P = rep.rule("C02-plan", "a writer plan can be derived for the class", floor=1600)
     n_tagged_paths = 0
     for key, cls, plan in W.classes():
@@ -59,6 +64,15 @@ def check(rep, ctx):
             continue
         flexible = bool(S.cv_const(cls, "__flexible__"))
         wr = plan["writer"]
+        rmod_ = ref_mods.get(cls["module"])
+        rcls_ = next((c_ for c_ in (rmod_ or {}).get("classes", []) if c_["name"] == cls["name"]), None)
+        if rcls_ is not None:
+            want_ = [f_["name"] for f_ in rcls_["fields"]]
+            got_ = [f_["name"] for f_ in cls["fields"]]
+            if sorted(want_) == sorted(got_):  # a field added or removed is C04's finding; here: the same fields in another order
+                rep.check(R_DO, want_ == got_, construct=key, stmt=f"declared {got_}",
+                          message=f"fields are declared (and therefore written) in the order {got_}; the Kafka definition has {want_}",
+                          **W.floc(cls, cls))
         regular = [f["name"] for f in cls["fields"] if "tag" not in (f.get("metadata") or {})]
         w_order = [pf["name"] for pf in sorted((pf for pf in plan["fields"] if pf["w_index"] is not None),
                                                key=lambda x: x["w_index"])]
